@@ -50,6 +50,11 @@ func (s BStep) Enc() string {
 		e.I(s.A[0]).I(s.A[1]).Z(s.Amt)
 	case 6:
 		e.I(s.A[0]).I(s.A[1]).I(s.A[2])
+	case 7:
+		e.B(s.Add).I(s.A[0]).Len(len(s.A) - 1)
+		for _, x := range s.A[1:] {
+			e.I(x)
+		}
 	}
 	e.Z(s.Fee).B(s.OK).Bridge(s.Pre, s.Cont).Bridge(s.Post, s.Cont)
 	return e.Coq()
@@ -94,7 +99,21 @@ type BOpts struct {
 	Pause     bool
 }
 
-var ethAddrs = []string{"0x627306090abaB3A6e1400e9345bC60c78a8BEf57", "0xf17f52151EbEF6C7334FAD080c5704D77216b732", "0xC5fdf4076b8F3A5357c5E395ab970B5B54098Fef"}
+var ethAddrs = []string{"0x627306090abaB3A6e1400e9345bC60c78a8BEf57", "0xf17f52151EbEF6C7334FAD080c5704D77216b732", "0xC5fdf4076b8F3A5357c5E395ab970B5B54098Fef", "0x821aEa9a577a9b44299B9c15c88cf3087F3b5544"}
+
+// spellEth: another spelling of the same Ethereum address (all accepted by common.IsHexAddress / HexToAddress)
+func spellEth(rng *chain.Rng, a string) (string, string) {
+	switch rng.Intn(8) {
+	case 0:
+		return strings.ToLower(a), "lower-case"
+	case 1:
+		return "0x" + strings.ToUpper(a[2:]), "upper-case"
+	case 2:
+		return a[2:], "no-0x-prefix"
+	}
+	return a, "checksummed"
+}
+
 
 func copyContents(m map[int64]env.Content) map[int64]env.Content {
 	o := map[int64]env.Content{}
@@ -229,24 +248,52 @@ func RunBridgeHistories(c Ctx, rep *report.Report, rng *chain.Rng, o BOpts, next
 					amount = new(big.Int).Mul(big.NewInt(2), chain.E(30)) // more than the sender has
 				}
 				ceth := new(big.Int).Add(big.NewInt(60000000000*393000), RandAmount(rng, 10))
-				eth := ethAddrs[rng.Intn(3)]
+				eth := ethAddrs[rng.Intn(len(ethAddrs))]
+				spelled, spelling := spellEth(rng, ethbridgetypes.NewEthereumAddress(eth).String())
 				if burn {
 					m := ethbridgetypes.NewMsgBurn(1, u.Addr, ethbridgetypes.NewEthereumAddress(eth), sdk.NewIntFromBigInt(amount), sym, sdk.NewIntFromBigInt(ceth))
+					m.EthereumReceiver = spelled
 					msg = &m
 				} else {
 					m := ethbridgetypes.NewMsgLock(1, u.Addr, ethbridgetypes.NewEthereumAddress(eth), sdk.NewIntFromBigInt(amount), sym, sdk.NewIntFromBigInt(ceth))
+					m.EthereumReceiver = spelled
 					msg = &m
 				}
+				rep.Count("lockburn.receiver-spelling." + spelling)
 				signer = u
 				bs = BStep{Kind: 2, Burn: burn, A: []int64{e.AcctID[u.Addr.String()], e.EthID(ethbridgetypes.NewEthereumAddress(eth).String()), env.SymbolID(sym)}, Amt: amount, Ceth: ceth,
 					Desc: map[string]interface{}{"type": map[bool]string{true: "Burn", false: "Lock"}[burn], "sender": u.Addr.String(), "symbol": sym, "amount": amount.String(),
-						"ceth_amount": ceth.String(), "eth_receiver": eth}}
+						"ceth_amount": ceth.String(), "eth_receiver": spelled}}
 			default:
-				pick := rng.Intn(4)
+				pick := rng.Intn(6)
 				if fs != nil {
 					pick = 0
 				}
 				switch pick {
+				case 4, 5:
+					// the blacklist is replaced: any subset of the addresses, in any order, entries repeated, in any spelling;
+					// lists that overlap the stored one are the interesting ones
+					sg := e.Admin
+					if rng.Intn(5) == 0 {
+						sg = e.Users[1]
+					}
+					var list []string
+					ids := []int64{e.AcctID[sg.Addr.String()]}
+					for _, k := range rng.Perm(len(ethAddrs)) {
+						if rng.Intn(2) == 0 {
+							sp, _ := spellEth(rng, ethAddrs[k])
+							list = append(list, sp)
+							ids = append(ids, e.EthID(ethAddrs[k]))
+							if rng.Intn(6) == 0 {
+								list = append(list, sp)
+								ids = append(ids, e.EthID(ethAddrs[k]))
+							}
+						}
+					}
+					m := &ethbridgetypes.MsgSetBlacklist{From: sg.Addr.String(), Addresses: list}
+					msg, signer = m, sg
+					bs = BStep{Kind: 7, Add: sg.Addr.Equals(e.Admin.Addr), A: ids,
+						Desc: map[string]interface{}{"type": "SetBlacklist", "signer": sg.Name, "addresses": list}}
 				case 0, 1:
 					vi := rng.Intn(nv)
 					add := rng.Intn(2) == 0
